@@ -22,12 +22,12 @@ HIST_EVENTS = ["NewFrame", "Batch", "R", "Sv", "FrameStart", "St", "Rewind", "Sa
 
 def _model_checks(ctx):
     q = ctx.quick
-    cfgs = ["MC_LmToProj", "MC_LmToProj_frames"] if q else ["MC_LmToProj_thorough", "MC_LmToProj_frames_thorough", "MC_LmToProj_segrange", "MC_LmToProj_deep"]
-    w = 4 if q else 8
-    res = []
-    for c in cfgs:
-        r = lib.tlc("MC_LmToProj", cfg=c, workers=w, timeout=600 if q else 1500, heap="6g", coverage=True, tag=c)
-        res.append((c, r))
+    cfgs = ["MC_LmToProj", "MC_LmToProj_frames"] if q else ["MC_LmToProj_thorough", "MC_LmToProj_frames_thorough", "MC_LmToProj_deep", "MC_LmToProj_segrange"]
+
+    def one(c):
+        return (c, lib.tlc("MC_LmToProj", cfg=c, workers=4, timeout=600 if q else 1500, heap="6g", coverage=True, tag=c))
+    with cf.ThreadPoolExecutor(1 if q else 2) as ex:
+        res = list(ex.map(one, cfgs))
     # the model of the unchanged code's treatment of a frame without a time mark must be refuted
     ru = lib.tlc("MC_LmToProj", cfg="MC_LmToProj_unpatched", workers=2, timeout=300, heap="4g", tag="MC_LmToProj_unpatched")
     return res, ru
